@@ -9,20 +9,23 @@ DRIVER = "drv_kv"
 HARNESS_BIN = "kv"
 HARNESS_FEATURES = "backends"
 PARTIAL = [
-    "kv_refines_spec is proved under `CmdOk`: every type id is used with ONE column kind (exactly what excludes the "
-    "trigger of known finding F19: both backends cache the column family by type id alone) and Fjall keys are "
-    "<= 65535 bytes; it is an as-is partial statement in the sense of DESIGN 2.4. get/scan_ignores_open_batches and "
-    "reopen_keeps_content are true by inspection of the model (commit = one atomic write is a modelling "
-    "assumption about RocksDB/Fjall, exercised by the real-backend correspondence and the concurrent atomicity probe).",
+    "kv_refines_spec is proved under `CmdOk`, which since the repair of F19 (family cache keyed by (type id, column "
+    "kind)) only says that Fjall composite keys are <= 65535 bytes (vacuous for RocksDB: kv_refines_spec_rocks has no "
+    "hypothesis on the commands); command sequences MAY use one type id with both column kinds. "
+    "get/scan_ignores_open_batches and reopen_keeps_content are true by inspection of the model (commit = one atomic "
+    "write is a modelling assumption about RocksDB/Fjall, exercised by the real-backend correspondence and the "
+    "concurrent atomicity probe).",
 ]
 ASSUMPTIONS = [
     "the serializer's encoding of keys, discriminants and elements is a parameter of the theorems: "
     "`PrefixFree enc` for wide-column keys and discriminants (self-delimiting codec, C12's decode_encode), "
-    "injectivity only for key-of-set keys and elements (the 8-byte length field does the rest)",
+    "injectivity only for key-of-set keys and elements (the 8-byte length field does the rest); a type id used with "
+    "both kinds has two independent key encoders (`Enc.encK` for WideColumn::Key, `Enc.encSK` for KeyOfSetColumn::Key)",
     "encoded key lengths are < 2^64 (the `as u64` cast of a `usize` length is lossless)",
-    "kv_refines_spec assumes every stable type id is used with ONE column kind (wide or key-of-set); "
-    "without it both backends share one column family between the two kinds (model and code agree on that; "
-    "recorded as known finding F19)",
+    "the model's family cache is keyed by (type id, column kind) = the code with fixes/F19-column-cache-keyed-by-kind.diff "
+    "(`Backend.cacheByKind`, default true); the historical cache keyed by the type id alone is kept as rocksF19/fjallF19 "
+    "only for the decide-checked witnesses f19_historical_answers / f19_historical_violates_spec. On a tree WITHOUT the "
+    "repair the dual-kind histories of the generator fail (oracle signatures dual-kind-*, and model/impl disagreements)",
     "sequential semantics: the model takes 'commit = one atomic store write' as its primitive; atomicity under a "
     "concurrent reader is judged only by the harness's probe on the real backends (it found F18 on Fjall, fixed in /repo 2794b90)",
     "fjall 3.0.1's Database drop occasionally never returns (upstream shutdown race: Close messages sent into a "
